@@ -27,12 +27,15 @@ def representations(key):
     reps.append(("jwk-reversed-order", cls.import_key(shuffled)))
     extra = dict(d, use="sig" if key.key_type != "oct" else "enc", alg="A", kid="custom-kid")
     reps.append(("jwk-with-optional-members", cls.import_key(extra)))
+    reps.append(("jwk-with-empty-kid", cls.import_key(dict(d, kid=""))))
+    reps.append(("jwk-with-kid-0", cls.import_key(dict(d, kid="0"))))
     if key.key_type != "oct":
         reps.append(("jwk-public", cls.import_key(key.as_dict(private=False))))
         reps.append(("pem-public", cls.import_key(key.as_pem(private=False))))
         reps.append(("der-public", cls.import_key(key.as_der(private=False))))
         if key.is_private:
             reps.append(("pem-private", cls.import_key(key.as_pem(private=True))))
+            reps.append(("pem-private-empty-kid-parameter", cls.import_key(key.as_pem(private=True), {"kid": ""})))
             reps.append(("der-private", cls.import_key(key.as_der(private=True))))
             reps.append(("pem-encrypted", cls.import_key(key.as_pem(private=True, password="pw"), password="pw")))
     return reps
